@@ -4,6 +4,7 @@ import (
 	"fmt"
 	"sort"
 	"strings"
+	"time"
 
 	"simh/codec"
 )
@@ -191,8 +192,36 @@ func runC08(c *Ctx) {
 	}
 	p.Segs = sp.segs
 	p.Stream = c.T.Bool(1, 2) // TCP-level re-segmentation on top
+	if p.Transport == "legacy" && c.T.Bool(1, 3) {
+		// the client ends the request body after its last byte (also after a packet it never
+		// completes): the end of the body is not part of any packet
+		p.EndBody = 1 + c.T.Choose(2)
+		if p.CloseAfter >= 0 {
+			p.CloseAfter = -1
+		}
+		sp.kind += fmt.Sprintf(" +end-of-body(%d)", p.EndBody)
+	}
 	if p.Transport == "ws" && c.T.Bool(1, 4) {
 		p.WSFrames = 2 + c.T.Choose(3)
+	}
+	reconnect := ""
+	if c.T.Bool(1, 5) {
+		// history: an earlier connection with the same connection id broke off inside a packet
+		// (a client that reconnects); the new connection's stream starts with its own first byte
+		gtr := []string{"ws", "legacy"}[c.T.Choose(2)]
+		g := &TunPlan{Name: "g0", Transport: gtr, From: p.From, ConnID: p.ConnID, User: p.User, AccessToken: p.AccessToken, CloseAfter: -1}
+		part := PTunnelCreate(ValidCookie(c, tw, g, p.AllowedHost), true)
+		cut := 1 + c.T.Choose(len(part.Bytes)-1)
+		g.Pkts = []CPkt{PHandshake(tw.MC.ServerCaps, 1, 0), {Kind: KUnframeable, Bytes: part.Bytes[:cut]}}
+		g.CloseAfter = 2
+		g.CloseReset = c.T.Bool(1, 2)
+		gt := StartTunnels(c, []*TunPlan{g})
+		RunTunnels(c, gt, 3000)
+		c.S.Run(nil, 300, 2*time.Second)
+		c.S.Draining = false
+		reconnect = fmt.Sprintf("after-broken-%s-connection-with-same-id(cut %d/%d)", gtr, cut, len(part.Bytes))
+		sp.kind += " " + reconnect
+		c.S.Count("probe.reconnect_same_id")
 	}
 	tw.Tuns = StartTunnels(c, tw.Plans)
 	RunTunnels(c, tw.Tuns, 20000)
@@ -200,6 +229,9 @@ func runC08(c *Ctx) {
 	if t.Client.Failed != "" || t.Err != "" {
 		c.Infra("transport setup failed: %s %s", t.Client.Failed, t.Err)
 		return
+	}
+	if reconnect != "" && !t.Client.Ready {
+		c.S.Fail("C08", "reconnect-not-served", "[%s %s] the new connection's packets were never read: its transport was not accepted (%s)", p.Transport, reconnect, t.Client.Describe())
 	}
 	coal, frags, first := shapeOf(ends, sp.segs, p.Transport, p.Stream)
 	maxPkt := 0
